@@ -252,12 +252,12 @@ const WORDS: &[&str] = &[
     "b!", "€", "a€b", "😀", "🇩🇪", "क्ष", "-", "...", "a1b", "ß", "ǅ", "n\u{303}o", "?!", "b-a", "ab-ab",
 ];
 const KEYS: &[&str] = &[
-    "a", "b", "ab", "ba", "abc", "abd", "ac", "é", "e\u{301}", "a b", "ﬁ", "x", "<bow> a b", "中", "bb",
-    "aé", "fi",
+    "a", "b", "ab", "ba", "abc", "acb", "bac", "abd", "ac", "é", "e\u{301}", "a b", "ﬁ", "x", "<bow> a b",
+    "中", "bb", "aé", "fi", "cab",
 ];
 const QUERIES: &[&str] = &[
-    "a", "b", "ab", "ac", "abd", "bd", "", "é", "e\u{301}", "ﬁ", "xyz", "abc", "ｂ", "a b", "ba", "aé",
-    "abcd", "c",
+    "a", "b", "ab", "ba", "abc", "acb", "bca", "ac", "abd", "bd", "", "é", "e\u{301}", "ﬁ", "xyz", "ｂ", "a b",
+    "aé", "abcd", "c", "cba",
 ];
 const FREQS: &[usize] = &[0, 1, 1, 2, 2, 3, 3, 5, 10, 1000, 1 << 40];
 
